@@ -115,6 +115,16 @@ func TestC16(t *testing.T) {
 				pi.RegNum += rapid.SampledFrom([]string{"*", "@", "_", "&", "é", "#", "\""}).Draw(t, "regbadch")
 			}
 		}
+		if rapid.IntRange(0, 11).Draw(t, "ipbad") == 0 {
+			// an authority of kind ip whose text is no IPv4 address (octet out of range, too few or too many octets, IPv6): must be
+			// refused, never wrapped around or cut (only this check draws such names)
+			bad := &core.GN{Type: "ip", Name: rapid.SampledFrom([]string{"256.1.1.1", "1.2.3.256", "300.1.1.1", "1.2.3.999", "1.2.3", "1.2.3.4.5", "1.2.3.-4", "::1", "1.2.3.65536"}).Draw(t, "ipbad-name")}
+			if rapid.Bool().Draw(t, "ipbad-top") {
+				a.Authority = bad
+			} else {
+				a.Contents[rapid.IntRange(0, len(a.Contents)-1).Draw(t, "ipbad-adm")].Authority = bad
+			}
+		}
 		if rapid.IntRange(0, 9).Draw(t, "long") == 0 {
 			// long names: lengths >= 128 inside the explicit tags
 			long := strings.Repeat("n", rapid.IntRange(120, 300).Draw(t, "longlen"))
